@@ -1613,3 +1613,295 @@ Proof.
     + exfalso. assert (complete (k_st c1) (m_i mc) s = true) by (apply (complete_bundle_at _ _ _ (i_typed _ _ _ I1)); eauto).
       rewrite (any_complete_of _ _ _ _ Hi H) in EA. discriminate.
 Qed.
+
+(** * C07: recovery *)
+Definition canonical (sp : subject) : Prop := s_pre sp = s_save sp /\ s_load sp = s_save sp.
+(** the issuers of the recovery run all answer, with certificates that are not due and whose
+    NotBefore is later than anything stored (they do not backdate before existing certificates) *)
+Definition all_up (cfg : config) (orc : oracle) (st : storage) (d : N) : Prop :=
+  (forall i, In i (issuers cfg) ->
+             exists nb, nth i (o_out orc) None = Some (nb, VFresh) /\
+                        forall j x, dir_crt st j d = Some x -> (c_nb x < nb)%Z) /\
+  (rnd cfg = true -> o_perm orc <> [] /\ incl (o_perm orc) (issuers cfg)).
+Record Rec7 (cfg : config) (sp : subject) (c : core) : Prop := {
+  r_typed : typed (k_st c);
+  r_unlocked : k_locked c = false;
+  r_noocsp : k_ocsp c = [];
+  r_sub : forall i x, dir_crt (k_st c) i (s_save sp) = Some x -> c_sub x = s_id sp;
+  r_niss : (1 <= n_iss cfg)%nat
+}.
+
+Lemma first_up_all_up cfg orc st d order :
+  all_up cfg orc st d -> order <> [] -> incl order (issuers cfg) ->
+  exists i nb, first_up orc order = Some (i, (nb, VFresh)) /\ In i (issuers cfg) /\
+               forall j x, dir_crt st j d = Some x -> (c_nb x < nb)%Z.
+Proof.
+  intros [HU _] Hne Hincl. destruct order as [|i r]; [contradiction|].
+  destruct (HU i (Hincl i (or_introl eq_refl))) as (nb & Hnb & Hlt).
+  exists i, nb. cbn. rewrite Hnb. auto using (Hincl i (or_introl eq_refl)).
+Qed.
+Lemma issuers_nonempty cfg : (1 <= n_iss cfg)%nat -> issuers cfg <> [].
+Proof. unfold issuers. destruct (n_iss cfg); [lia | cbn; discriminate]. Qed.
+Lemma obtain_order_nonempty cfg orc st d kr :
+  all_up cfg orc st d -> (1 <= n_iss cfg)%nat -> obtain_order cfg orc kr <> [].
+Proof.
+  intros [_ HP] Hn. unfold obtain_order. destruct (rnd cfg); [apply HP; reflexivity|].
+  destruct kr as [[i k]|]; [unfold move_front; discriminate | apply issuers_nonempty, Hn].
+Qed.
+
+Lemma newest_dominant bs b :
+  In b bs -> (forall b', In b' bs -> b' = b \/ (c_nb (b_cert b') < c_nb (b_cert b))%Z) -> newest bs = Some b.
+Proof.
+  induction bs as [|a r IH]; [contradiction|]. intros Hin Hall. cbn [newest].
+  assert (Hr : forall b', In b' r -> b' = b \/ (c_nb (b_cert b') < c_nb (b_cert b))%Z) by (intros; apply Hall; right; assumption).
+  destruct Hin as [->|Hin].
+  - destruct (newest r) as [b'|] eqn:ER; [|reflexivity].
+    destruct (Hr b' (newest_in _ _ ER)) as [->|Hlt].
+    + rewrite Z.ltb_irrefl. reflexivity.
+    + destruct (Z.ltb_spec (c_nb (b_cert b)) (c_nb (b_cert b'))); [lia | reflexivity].
+  - rewrite (IH Hin Hr).
+    destruct (Hall a (or_introl eq_refl)) as [->|Hlt].
+    + rewrite Z.ltb_irrefl. reflexivity.
+    + destruct (Z.ltb_spec (c_nb (b_cert a)) (c_nb (b_cert b))); [reflexivity | lia].
+Qed.
+
+(** after a complete bundle with a later NotBefore than everything else has been stored with a
+    configured issuer, it is what every load picks *)
+Lemma newest_after_put st cfg d i k x m :
+  In i (issuers cfg) ->
+  (forall j y, dir_crt st j d = Some y -> (c_nb y < c_nb x)%Z) ->
+  newest_bundle (put_bundle st i d k x m) cfg d = Some (i, k, x, m).
+Proof.
+  intros Hi Hlt. unfold newest_bundle. apply newest_dominant.
+  - apply (bundles_of _ _ _ i); [exact Hi|]. rewrite bundle_at_put_bundle.
+    replace (same_dir i d i d) with true by (symmetry; apply same_dir_true; auto). reflexivity.
+  - intros b' Hb'. apply bundles_in in Hb'. destruct Hb' as (j & Hj & Hb). rewrite bundle_at_put_bundle in Hb.
+    destruct (same_dir i d j d) eqn:E.
+    + apply same_dir_true in E. destruct E as [-> _]. left. congruence.
+    + right. destruct b' as [[[j' k'] y] m']. apply bundle_at_inv in Hb. destruct Hb as (_ & _ & HC & _).
+      cbn. apply (Hlt j y HC).
+Qed.
+
+Lemma newest_none_no_complete st cfg d :
+  typed st -> newest_bundle st cfg d = None -> any_complete st (issuers cfg) d = false.
+Proof.
+  intros T HN. unfold any_complete. apply not_true_is_false. intros H. apply existsb_exists in H.
+  destruct H as (i & Hi & Hc). apply (complete_bundle_at _ _ _ T) in Hc. destruct Hc as [b Hb].
+  rewrite (newest_none_all _ _ _ HN i Hi) in Hb. discriminate.
+Qed.
+
+(** what issue_save yields when all issuers are up *)
+Lemma issue_save_all_up cfg sp orc order k c :
+  all_up cfg orc (k_st c) (s_save sp) -> order <> [] -> incl order (issuers cfg) ->
+  exists i nb, In i (issuers cfg) /\
+    issue_save sp orc order k c =
+      (Ok tt, set_st (bump_ser c) (put_bundle (k_st c) i (s_save sp) k (Cert k (s_id sp) nb VFresh (k_nser c)) [s_id sp])) /\
+    newest_bundle (put_bundle (k_st c) i (s_save sp) k (Cert k (s_id sp) nb VFresh (k_nser c)) [s_id sp]) cfg (s_save sp)
+      = Some (i, k, Cert k (s_id sp) nb VFresh (k_nser c), [s_id sp]).
+Proof.
+  intros HU Hne Hincl. destruct (first_up_all_up _ _ _ _ _ HU Hne Hincl) as (i & nb & HF & Hi & Hlt).
+  exists i, nb. split; [exact Hi|]. split; [unfold issue_save; rewrite HF; reflexivity|].
+  apply newest_after_put; [exact Hi | exact Hlt].
+Qed.
+
+Definition served_ok (cfg : config) (sp : subject) (mc : mcert) (c' : core) : Prop :=
+  c_pub (m_c mc) = m_k mc /\ is_due (m_c mc) = false /\ c_sub (m_c mc) = s_id sp /\
+  In (m_i mc) (issuers cfg) /\
+  exists m, newest_bundle (k_st c') cfg (s_save sp) = Some (m_i mc, m_k mc, m_c mc, m).
+
+Lemma managed_of_after_issue cfg sp c i k nb :
+  k_ocsp c = [] ->
+  newest_bundle (put_bundle (k_st c) i (s_save sp) k (Cert k (s_id sp) nb VFresh (k_nser c)) [s_id sp]) cfg (s_save sp)
+    = Some (i, k, Cert k (s_id sp) nb VFresh (k_nser c), [s_id sp]) ->
+  forall c', k_st c' = put_bundle (k_st c) i (s_save sp) k (Cert k (s_id sp) nb VFresh (k_nser c)) [s_id sp] ->
+             k_ocsp c' = [] ->
+  managed_of c' cfg (s_save sp) = Ok (MCert (Cert k (s_id sp) nb VFresh (k_nser c)) k i None).
+Proof.
+  intros HO HN c' Est HO'. unfold managed_of. rewrite Est, HN. cbn [c_pub]. rewrite N.eqb_refl.
+  unfold rev_of. rewrite HO'. reflexivity.
+Qed.
+
+(** recoverable: from ANY well-typed storage in which the bundle a load picks (if there is one)
+    has a matching key, a fresh instance's manage succeeds and ends up serving a certificate
+    that is not due, names the subject, and whose key matches *)
+Lemma recoverable cfg sp orc c :
+  Rec7 cfg sp c -> canonical sp -> all_up cfg orc (k_st c) (s_save sp) ->
+  stuck (k_st c) cfg (s_save sp) = false ->
+  exists mc c', manage_pure cfg sp orc c = (Ok mc, c') /\ served_ok cfg sp mc c'.
+Proof.
+  intros R [HP HL] HU HS. unfold manage_pure, managed_of. rewrite HL.
+  unfold stuck in HS.
+  destruct (newest_bundle (k_st c) cfg (s_save sp)) as [[[[i k] x] m]|] eqn:EN.
+  - (* a bundle is loaded; its key matches *)
+    cbn in HS. apply negb_false_iff in HS. rewrite HS. cbn [m_c m_rev].
+    unfold rev_of. rewrite (r_noocsp _ _ _ R). cbn [assoc_ser]. rewrite andb_false_r.
+    destruct (newest_bundle_inv _ _ _ _ _ _ _ EN) as (Hi & HK & HC & HM).
+    destruct (is_due x) eqn:ED.
+    + (* due: renewed, reloaded *)
+      unfold renew_pure. rewrite HL, EN, ED. cbn [negb andb].
+      assert (HI : exists i' nb k', In i' (issuers cfg) /\
+                 (if reuse cfg then issue_save sp orc (issuers cfg) k c
+                  else issue_save sp orc (issuers cfg) (k_nkey c) (bump_key c)) =
+                 (Ok tt, set_st (bump_ser (if reuse cfg then c else bump_key c))
+                                (put_bundle (k_st c) i' (s_save sp) k' (Cert k' (s_id sp) nb VFresh (k_nser c)) [s_id sp])) /\
+                 newest_bundle (put_bundle (k_st c) i' (s_save sp) k' (Cert k' (s_id sp) nb VFresh (k_nser c)) [s_id sp]) cfg (s_save sp)
+                 = Some (i', k', Cert k' (s_id sp) nb VFresh (k_nser c), [s_id sp])).
+      { destruct (reuse cfg).
+        - destruct (issue_save_all_up cfg sp orc (issuers cfg) k c HU (issuers_nonempty _ (r_niss _ _ _ R)) (incl_refl _))
+            as (i' & nb & Hi' & E1 & E2). exists i', nb, k. auto.
+        - destruct (issue_save_all_up cfg sp orc (issuers cfg) (k_nkey c) (bump_key c) HU (issuers_nonempty _ (r_niss _ _ _ R)) (incl_refl _))
+            as (i' & nb & Hi' & E1 & E2). exists i', nb, (k_nkey c). auto. }
+      destruct HI as (i' & nb & k' & Hi' & E1 & E2). rewrite E1. unfold then_load. cbn [fst snd].
+      erewrite managed_of_after_issue; [| apply (r_noocsp _ _ _ R) | exact E2 | | ].
+      * eexists _, _. split; [reflexivity|]. cbn [m_c m_k m_i]. repeat split; auto.
+        cbn [k_st set_st]. eexists; exact E2.
+      * destruct (reuse cfg); reflexivity.
+      * destruct (reuse cfg); cbn; apply (r_noocsp _ _ _ R).
+    + (* not due: served as it is *)
+      eexists _, _. split; [reflexivity|]. cbn [m_c m_k m_i]. apply N.eqb_eq in HS.
+      repeat split; auto. * apply (r_sub _ _ _ R _ _ HC). * eauto.
+  - (* nothing loadable: obtain, then load *)
+    assert (EA : any_complete (k_st c) (issuers cfg) (s_pre sp) = false)
+      by (rewrite HP; apply newest_none_no_complete; [apply (r_typed _ _ _ R) | exact EN]).
+    unfold obtain_pure. rewrite EA.
+    set (kr := if reuse cfg then first_key_i (k_st c) (issuers cfg) (s_pre sp) else None).
+    assert (HKR : forall i k, kr = Some (i, k) -> In i (issuers cfg)).
+    { unfold kr. intros i k. destruct (reuse cfg); [|discriminate]. intros H. apply (first_key_i_in _ _ _ _ _ H). }
+    assert (Hord : incl (obtain_order cfg orc kr) (issuers cfg)).
+    { apply obtain_order_incl; [|exact HKR]. intros Hr. apply (proj2 HU Hr). }
+    assert (Hne : obtain_order cfg orc kr <> []) by (eapply obtain_order_nonempty; [exact HU | apply (r_niss _ _ _ R)]).
+    assert (HI : exists i' nb k' c1, In i' (issuers cfg) /\ k_ocsp c1 = [] /\
+                 match kr with
+                 | Some (_, k) => issue_save sp orc (obtain_order cfg orc kr) k c
+                 | None => issue_save sp orc (obtain_order cfg orc kr) (k_nkey c) (bump_key c)
+                 end = (Ok tt, c1) /\
+                 k_st c1 = put_bundle (k_st c) i' (s_save sp) k' (Cert k' (s_id sp) nb VFresh (k_nser c)) [s_id sp] /\
+                 newest_bundle (put_bundle (k_st c) i' (s_save sp) k' (Cert k' (s_id sp) nb VFresh (k_nser c)) [s_id sp]) cfg (s_save sp)
+                 = Some (i', k', Cert k' (s_id sp) nb VFresh (k_nser c), [s_id sp])).
+    { destruct kr as [[i0 k0]|].
+      - destruct (issue_save_all_up cfg sp orc _ k0 c HU Hne Hord) as (i' & nb & Hi' & E1 & E2).
+        exists i', nb, k0. eexists. repeat split; [exact Hi' | | exact E1 | reflexivity | exact E2]. cbn. apply (r_noocsp _ _ _ R).
+      - destruct (issue_save_all_up cfg sp orc _ (k_nkey c) (bump_key c) HU Hne Hord) as (i' & nb & Hi' & E1 & E2).
+        exists i', nb, (k_nkey c). eexists. repeat split; [exact Hi' | | exact E1 | reflexivity | exact E2]. cbn. apply (r_noocsp _ _ _ R). }
+    destruct HI as (i' & nb & k' & c1 & Hi' & HO1 & E1 & Est & E2). rewrite E1. unfold then_load. cbn [fst snd].
+    erewrite managed_of_after_issue; [| apply (r_noocsp _ _ _ R) | exact E2 | exact Est | exact HO1].
+    eexists _, _. split; [reflexivity|]. cbn [m_c m_k m_i]. repeat split; auto.
+    rewrite Est. eexists; exact E2.
+Qed.
+
+(** the refuted class is permanent: on a stuck storage every manage fails with the key mismatch,
+    obtain is a no-op, and neither changes anything — whatever the issuers would answer *)
+Lemma stuck_is_permanent cfg sp orc c :
+  typed (k_st c) -> canonical sp -> stuck (k_st c) cfg (s_save sp) = true ->
+  manage_pure cfg sp orc c = (Fail EMismatch, c) /\ obtain_pure cfg sp orc c = (Ok tt, c).
+Proof.
+  intros T [HP HL] HS. unfold stuck in HS.
+  destruct (newest_bundle (k_st c) cfg (s_save sp)) as [[[[i k] x] m]|] eqn:EN; [|discriminate].
+  cbn in HS. apply negb_true_iff in HS. split.
+  - unfold manage_pure, managed_of. rewrite HL, EN, HS. reflexivity.
+  - unfold obtain_pure. rewrite HP.
+    destruct (newest_bundle_inv _ _ _ _ _ _ _ EN) as (Hi & HK & HC & HM).
+    assert (Hb : bundle_at (k_st c) i (s_save sp) = Some (i, k, x, m)) by (unfold bundle_at; rewrite HK, HC, HM; reflexivity).
+    rewrite (any_complete_of _ _ _ i Hi); [reflexivity|]. apply (complete_bundle_at _ _ _ T). eauto.
+Qed.
+
+(** * The clauses stated on the monadic model (what the correspondence check executes) *)
+Lemma evals_run_hop_inv cfg sp orc h c r c' :
+  Inv6 cfg sp c -> evals (run_hop nf cfg sp orc h) c r c' -> run_hop_pure cfg sp orc h c = (r, c').
+Proof.
+  intros I HE.
+  destruct (evals_det _ _ _ _ _ _ HE (evals_run_hop cfg sp orc h c (i_typed _ _ _ I) (i_unlocked _ _ _ I))) as [-> ->].
+  destruct (run_hop_pure cfg sp orc h c); reflexivity.
+Qed.
+Lemma evals_manage_inv cfg sp orc c r c' :
+  Inv6 cfg sp c -> evals (manage nf cfg sp orc) c r c' -> manage_pure cfg sp orc c = (r, c').
+Proof.
+  intros I HE.
+  destruct (evals_det _ _ _ _ _ _ HE (evals_manage cfg sp orc c (i_typed _ _ _ I) (i_unlocked _ _ _ I))) as [-> ->].
+  destruct (manage_pure cfg sp orc c); reflexivity.
+Qed.
+Lemma evals_load_managed_inv cfg d c r c' :
+  typed (k_st c) -> evals (load_managed nf cfg d) c r c' -> managed_of c cfg d = r /\ c' = c.
+Proof. intros T HE. destruct (evals_det _ _ _ _ _ _ HE (evals_load_managed c cfg d T)) as [-> ->]. auto. Qed.
+
+Theorem m_success_bundle_complete cfg sp c orc h r c' :
+  reach6 cfg sp c -> oracle_ok cfg orc -> is_op h = true ->
+  evals (run_hop nf cfg sp orc h) c (Ok r) c' ->
+  exists i k x, In i (issuers cfg) /\ bundle_at (k_st c') i (s_save sp) = Some (i, k, x, [s_id sp]) /\
+                c_pub x = k /\ c_sub x = s_id sp.
+Proof.
+  intros HR HO Hop HE. apply reach6_inv in HR.
+  change (good_at cfg sp c').
+  apply (success_bundle_complete cfg sp orc h c r c' HR HO Hop). apply evals_run_hop_inv; assumption.
+Qed.
+
+Theorem m_reload_after_success cfg sp c orc h r c' :
+  reach6 cfg sp c -> oracle_ok cfg orc -> is_op h = true ->
+  evals (run_hop nf cfg sp orc h) c (Ok r) c' -> s_load sp = s_save sp ->
+  exists mc, evals (load_managed nf cfg (s_load sp)) c' (Ok mc) c' /\
+             newest_bundle (k_st c') cfg (s_save sp) = Some (m_i mc, m_k mc, m_c mc, [s_id sp]) /\
+             c_pub (m_c mc) = m_k mc /\ c_sub (m_c mc) = s_id sp.
+Proof.
+  intros HR HO Hop HE HS. apply reach6_inv in HR.
+  assert (EP := evals_run_hop_inv _ _ _ _ _ _ _ HR HE).
+  destruct (reload_after_success _ _ _ _ _ _ _ HR HO Hop EP HS) as (mc & HM & A & B & C).
+  exists mc. split; [|auto].
+  assert (I1 : Inv6 cfg sp c') by (generalize (Inv6_run_hop cfg sp orc h c HR); rewrite EP; auto).
+  generalize (evals_load_managed c' cfg (s_load sp) (i_typed _ _ _ I1)). rewrite HM. auto.
+Qed.
+
+Theorem m_fresh_key_unless_reuse cfg sp c orc h r c' :
+  reach6 cfg sp c -> reuse cfg = false -> evals (run_hop nf cfg sp orc h) c r c' ->
+  (forall i d x, dir_crt (k_st c') i d = Some x ->
+                 dir_crt (k_st c) i d = Some x \/
+                 (c_pub x = k_nkey c /\ dir_key (k_st c') i d = Some (c_pub x))) /\
+  (forall i d, dir_key (k_st c) i d <> Some (k_nkey c)) /\
+  (forall i d, dir_comp (k_st c) i d <> Some (k_nkey c)) /\
+  (forall i d x, dir_crt (k_st c) i d = Some x -> c_pub x <> k_nkey c).
+Proof.
+  intros HR HRe HE. apply reach6_inv in HR. split; [|apply (fresh_key_is_new cfg sp c HR)].
+  generalize (fresh_key_unless_reuse cfg sp orc h c HRe). rewrite (evals_run_hop_inv _ _ _ _ _ _ _ HR HE). auto.
+Qed.
+
+Theorem m_reuse_keeps_key cfg sp c orc f r c' j k0 c0 m0 :
+  reach6 cfg sp c -> reuse cfg = true ->
+  newest_bundle (k_st c) cfg (s_load sp) = Some (j, k0, c0, m0) ->
+  evals (run_hop nf cfg sp orc (HRenew f)) c r c' ->
+  (forall i d x, dir_crt (k_st c') i d = Some x ->
+                 dir_crt (k_st c) i d = Some x \/ (c_pub x = k0 /\ dir_key (k_st c') i d = Some (c_pub x))) /\
+  k_nkey c' = k_nkey c.
+Proof.
+  intros HR HRe HN HE. apply reach6_inv in HR.
+  generalize (evals_run_hop_inv _ _ _ _ _ _ _ HR HE). cbn [run_hop_pure]. intros [= _ <-].
+  apply (reuse_keeps_key_renew cfg sp orc f c j k0 c0 m0 HRe HN).
+Qed.
+
+Theorem m_cached_covers_requested cfg sp c orc mc c' :
+  reach6 cfg sp c -> evals (manage nf cfg sp orc) c (Ok mc) c' ->
+  c_sub (m_c mc) = s_id sp /\ c_pub (m_c mc) = m_k mc /\ In (m_i mc) (issuers cfg) /\
+  newest_bundle (k_st c') cfg (s_save sp) = Some (m_i mc, m_k mc, m_c mc, [s_id sp]).
+Proof.
+  intros HR HE. apply reach6_inv in HR.
+  apply (cached_covers_requested cfg sp orc c mc c' HR). apply evals_manage_inv; assumption.
+Qed.
+
+Theorem m_newest_of_issuers_loaded cfg d c i k x m c' :
+  typed (k_st c) -> evals (load_any nf cfg d) c (Ok (i, k, x, m)) c' ->
+  (i < n_iss cfg)%nat /\ bundle_at (k_st c) i d = Some (i, k, x, m) /\
+  forall j b', (j < n_iss cfg)%nat -> bundle_at (k_st c) j d = Some b' ->
+               (c_nb (b_cert b') <= c_nb x)%Z /\ (c_nb (b_cert b') = c_nb x -> (i <= j)%nat).
+Proof.
+  intros T HE. destruct (evals_det _ _ _ _ _ _ HE (evals_load_any c cfg d T)) as [E _].
+  apply newest_of_issuers_loaded. revert E. destruct (newest_bundle (k_st c) cfg d) as [b|]; [intros [= ->]; reflexivity | discriminate].
+Qed.
+
+Theorem m_compromised_key_never_reused_partial cfg sp c orc mc0 mc c' :
+  reach6 cfg sp c -> oracle_ok cfg orc -> (n_iss cfg = 1%nat \/ reuse cfg = false) ->
+  evals (load_managed nf cfg (s_load sp)) c (Ok mc0) c -> m_rev mc0 = Some true ->
+  evals (manage nf cfg sp orc) c (Ok mc) c' ->
+  m_k mc <> m_k mc0.
+Proof.
+  intros HR HO Hc HL Hrev HM. apply reach6_inv in HR.
+  destruct (evals_load_managed_inv _ _ _ _ _ (i_typed _ _ _ HR) HL) as [EL _].
+  apply (compromised_key_never_reused_partial cfg sp orc c mc0 mc c' HR HO Hc EL Hrev). apply evals_manage_inv; assumption.
+Qed.
